@@ -54,7 +54,7 @@ BASE = dict(Clients={"A", "B"}, Sides={"A", "B", "X"}, Nameplates={"4", "5"},
             AppId=Raw('[c \\in {"A","B"} |-> "app"]'),
             CodeChoices=Raw('[c \\in {"A","B"} |-> {<<"4", "w">>}]'),
             AllowAllocate=set(), AllowInput=set(), MaxSend=0, MaxDrops=0, MaxDup=0, MaxSwap=0, MaxInject=0,
-            MaxTamper=0, MaxHelper=0, KnownErrs=set(), InjectSet=Raw("{}"), LateFrames=False, ReentKinds=set(), WelcomeErr=False, ConnFails=False, MaxSrvErr=0, MaxAborts=0, MaxCloseAt=0)
+            MaxTamper=0, MaxHelper=0, KnownErrs=set(), InjectSet=Raw("{}"), LateFrames=False, ReentKinds=set(), WelcomeErr=False, ConnFails=False, MaxSrvErr=0, MaxAborts=0, SrvCloses=False, MaxCloseAt=0)
 
 
 DELEG = Raw('[c \\in {"A","B"} |-> "delegated"]')
@@ -83,6 +83,7 @@ def cfgs_for(prop, tier):   # noqa: F811  (replaces the draft above)
               '[side |-> "X", phase |-> "0", body |-> Junk("j")]}')
     if prop == "C03":
         out["swap"] = mk(MaxSend=F(2, 0), MaxSwap=1)
+        out["srv_close_send"] = mk(MaxSend=F(2, 0), MaxDrops=F(1, 0), SrvCloses=True)
         out["dup"] = mk(MaxSend=F(1, 0), MaxDup=1)
         out["one_drop"] = mk(MaxSend=F(1, 0), MaxDrops=F(1, 0))
         if not q:
@@ -94,6 +95,7 @@ def cfgs_for(prop, tier):   # noqa: F811  (replaces the draft above)
         out["drop_receiver"] = mk(MaxSend=F(1, 0), MaxDrops=F(0, 1))
         out["drop_abort"] = mk(MaxSend=F(1, 0), MaxDrops=F(1, 0), MaxAborts=1)
         out["drop_close"] = mk(AllowClose={"A"}, MaxDrops=F(1, 0))
+        out["srv_close_send"] = mk(MaxSend=F(2, 0), MaxDrops=F(1, 0), SrvCloses=True)
         if not q:
             out["two_drops_one_side"] = mk(MaxSend=F(1, 0), MaxDrops=F(2, 0))
             out["drop_each"] = mk(MaxSend=F(1, 0), MaxDrops=F(1, 1))
@@ -122,6 +124,7 @@ def cfgs_for(prop, tier):   # noqa: F811  (replaces the draft above)
                                 CodeChoices=Raw('[c \\in {"A","B"} |-> IF c = "A" THEN {} ELSE {<<"4","w">>}]'))
         out["fail_then_code"] = mk(AllowClose={"A", "B"}, ConnFails=True, WelcomeErr=True, AllowAllocate={"A"})
         out["srv_error_close"] = mk(AllowClose={"A"}, MaxSrvErr=1)
+        out["srv_close_send"] = mk(MaxSend=F(1, 0), MaxDrops=F(1, 0), SrvCloses=True, AllowClose={"A"})
         if not q:
             out["third_party"] = mk(AllowClose={"A"}, MaxInject=1, InjectSet=inj, MaxSend=F(1, 0))
             out["input_reent"] = mk(Mode=DELEG, AllowClose={"B"}, AllowInput={"B"}, MaxHelper=2, LateFrames=True,
@@ -152,7 +155,7 @@ def gen_cfg(prop):
     """Generation configuration: generous budgets; behaviours are sampled with -simulate."""
     d = dict(BASE)
     d.update(MaxSend=F(2, 2), MaxDrops=F(2, 2), AllowClose={"A", "B"}, MaxDup=1, MaxSwap=1, AllowAllocate={"A"},
-             LateFrames=False, WelcomeErr=True, ConnFails=True)
+             LateFrames=False, WelcomeErr=True, ConnFails=True, SrvCloses=True, MaxAborts=1, MaxSrvErr=0)
     if prop == "C01":
         d.update(CodeChoices=Raw('[c \\in {"A","B"} |-> IF c = "A" THEN {<<"4", "w">>} ELSE {<<"4", "w">>, <<"4", "v">>, <<"5", "w">>}]'))
     if prop == "C02":
@@ -193,7 +196,7 @@ class RealRun:
         for name, cl in self.world.clients.items():
             if getattr(cl, "closed_at", None) is None and any(k == "closed" for k, _ in cl.events):
                 cl.closed_at = self.world.stepno
-        if act["a"] in ("Drop", "Dup", "SwapS2C", "TamperS2C", "Inject", "AppClose", "ConnFail", "ConnAbort", "LateDeliver", "AppAllocate", "SrvSend",
+        if act["a"] in ("Drop", "Dup", "SwapS2C", "TamperS2C", "Inject", "AppClose", "ConnFail", "ConnAbort", "SrvCloseBegin", "LateDeliver", "AppAllocate", "SrvSend",
                         "AppInput", "ArmClose"):
             self.nontrivial.add(act["a"])
         if spec_act is not None:
@@ -556,6 +559,37 @@ def c09_unechoed_case(tid, k, j, side="A"):
     return run, bool(drained), drained, ok
 
 
+def srvclose_case(tid, during, after, who="A"):
+    """Both sides verified; the server closes `who`'s connection gracefully (WebSocket closing handshake); the
+    application sends `during` messages while the websocket is CLOSING and `after` more once TCP is gone; then the
+    client reconnects.  Every send_message() must be accepted and everything must arrive, in order."""
+    run = RealRun(tid, "srvclose")
+    w = run.world
+    for c in ("A", "B"):
+        run.apply({"a": "ConnOpen", "c": c})
+        run.apply({"a": "AppSetCode", "c": c, "code": "4-alpha-beta"})
+    run.apply({"a": "AppSend", "c": who, "data": ("m:%s:0" % who).encode().hex()})
+    run.drain()
+    conn = w.live_conn(w.clients[who])
+    n = 1
+    ok = conn is not None and not conn.s2c
+    if ok:
+        run.apply({"a": "SrvCloseBegin", "k": conn.id})
+        for _ in range(during):
+            run.apply({"a": "AppSend", "c": who, "data": ("m:%s:%d" % (who, n)).encode().hex()})
+            n += 1
+        run.apply({"a": "Drop", "k": conn.id})
+        for _ in range(after):
+            run.apply({"a": "AppSend", "c": who, "data": ("m:%s:%d" % (who, n)).encode().hex()})
+            n += 1
+    drained = run.drain()
+    for _ in range(2):
+        run.apply({"a": "AppSend", "c": who, "data": ("m:%s:%d" % (who, n)).encode().hex()})
+        n += 1
+    drained = run.drain() and drained
+    return run, bool(drained), drained, ok
+
+
 def c18_case(tid, k, j, how):
     """A lazy Deferred-mode application: the peer sends k messages, the application reads j of them, the wormhole
     closes (`how`), and every get_*() issued afterwards must fail - including get_message() with unread
@@ -671,6 +705,8 @@ def world_to_spec(run, a):
         return {"a": "Swap", "c": cname(a["k"]), "x": str(a["i"] + 1), "y": "*"}
     if t == "ConnAbort":
         return {"a": "ConnAbort", "c": a["c"], "x": "*", "y": "*"}
+    if t == "SrvCloseBegin":
+        return {"a": "SrvCloseBegin", "c": cname(a["k"]), "x": "*", "y": "*"}
     if t == "SrvSend" and a["msg"].get("type") == "error":
         return {"a": "SrvError", "c": cname(a["k"]), "x": "*", "y": "*"}
     return None
@@ -734,6 +770,7 @@ def random_real_walk(tid, rng, prop, steps=60):
               "send": {"A": rng.choice([0, 1, 2]), "B": rng.choice([0, 1, 2])},
               "close": prop in ("C08", "C14", "C18") and rng.random() < 0.8,
               "welcome_error": prop in ("C08", "C14", "C18") and rng.random() < 0.3}
+    srv_closes = prop in ("C03", "C09", "C14", "C08", "C18")
     budget["Abort"] = rng.choice([0, 1, 2]) if prop in ("C09", "C08", "C14", "C18", "C03") else 0
     budget["SrvErr"] = rng.choice([0, 0, 1]) if prop in ("C08", "C14", "C18") else 0
     if prop in ("C03", "C02", "C01"):
@@ -755,8 +792,13 @@ def random_real_walk(tid, rng, prop, steps=60):
             if t == "ConnFail" or t == "LateDeliver":
                 continue
             if t == "Drop":
-                if budget["Drop"] > 0 and rng.random() < 0.15:
+                conn = w.conn(a["k"])
+                if conn.wsclosing:
+                    acts += [a, a]          # the closing handshake ends with TCP going away
+                elif budget["Drop"] > 0 and rng.random() < 0.15:
                     acts.append(a)
+                elif budget["Drop"] > 0 and not conn.s2c and srv_closes and rng.random() < 0.15:
+                    acts.append({"a": "SrvCloseBegin", "k": conn.id})
                 continue
             if t == "ConnOpen" and budget["Abort"] > 0 and rng.random() < 0.3 and getattr(w.clients[a["c"]].boss._RC, "_have_made_a_successful_connection", False):
                 acts.append({"a": "ConnAbort", "c": a["c"]})
@@ -924,7 +966,7 @@ def run_trace_validation(wd, lines, ntraces):
             f.write(json.dumps(l) + "\n")
     consts = dict(BASE)
     consts.update(MaxSend=F(9, 9), MaxDrops=F(9, 9), AllowClose={"A", "B"}, MaxDup=9, MaxSwap=9, AllowAllocate={"A", "B"},
-                  AllowInput={"A", "B"}, LateFrames=True, WelcomeErr=True, ConnFails=True, MaxHelper=99, MaxSrvErr=9, MaxAborts=9,
+                  AllowInput={"A", "B"}, LateFrames=True, WelcomeErr=True, ConnFails=True, MaxHelper=99, MaxSrvErr=9, MaxAborts=9, SrvCloses=True,
                   ReentKinds={"welcome", "code", "key", "verifier", "versions", "message"},
                   CodeChoices=Raw('[c \\in {"A","B"} |-> {<<"4", "w">>, <<"4", "v">>, <<"5", "w">>}]'))
     common.write_model(wd, "MC_Trace", "WormholeTrace", consts, spec="TSpec", constraint="Mark", postcondition="Post",
@@ -1165,6 +1207,23 @@ def run_pipeline(prop, tier, v, quick):
                     records.append(run_.finish(drained, goal=goal))
             cov["c03_family_cases"] = 3 * len(fam)
             cov["c03_family_permuted"] = nperm
+        if prop in ("C03", "C09", "C14", "C18"):
+            n = nok = 0
+            for who in ("A", "B"):
+                for during in (0, 1, 2):
+                    for after in (0, 1):
+                        tid += 1
+                        n += 1
+                        try:
+                            run_, goal, drained, ok = srvclose_case(tid, during, after, who)
+                        except Exception as e:
+                            cov.setdefault("family_errors", []).append(repr(e)[:120])
+                            continue
+                        nok += bool(ok)
+                        runs[tid] = run_
+                        records.append(run_.finish(drained, goal=goal))
+            cov["srvclose_family_cases"] = n
+            cov["srvclose_family_as_intended"] = nok
         if prop in ("C18", "C09", "C03"):
             n = nok = 0
             for side in ("A", "B"):
